@@ -562,10 +562,13 @@ func (i *Iterator[T]) ProcessParallel(
 		wg := &WaitGroup{}
 
 		operation := fn.WithRecover().WithErrorFilter(func(err error) error {
-			return ft.WhenDo(
-				!opts.CanContinueOnError(err),
-				ft.Wrapper(io.EOF),
-			)
+			if opts.CanContinueOnError(err) {
+				return nil
+			}
+			// abort: stop the other workers (and the splitter) too,
+			// rather than letting them drain the rest of the input.
+			cancel()
+			return io.EOF
 		})
 
 		splits := i.Split(opts.NumWorkers)
